@@ -1203,6 +1203,49 @@ def run_concat_case(p):
             return {'what': 'concatenate(flatten(...)) value', 'groups': repr([o.tags for o in dom]), 'got': repr(vals), 'want': repr([want0]),
                     'signature_kind': 'nested-value'}
         return None
+    if p.get('combined'):
+        # the membership test against a concatenate as ONE condition among others (and_ / or_, either operand order, under
+        # not_), and two different concatenates over the same parent variable in one query
+        from entity_query_language import and_, or_
+        dom = O.make_domain(rng, 3)
+        for o in dom:
+            o.props['more'] = [rng.choice([1, 2, 3, 4]) for _ in range(rng.randint(0, 2))]
+        probe = [O.Item('p', i) for i in range(5)]
+        all1 = [t for o in dom for t in o.tags]
+        all2 = [t for o in dom for t in o.props['more']]
+        other = ('cmp', rng.choice(['ge', 'le', 'eq', 'ne']), ('attr', 0, 'size'), ('lit', rng.choice([1, 2, 3])))
+        shape = rng.choice(['or_first', 'or_second', 'and_first', 'and_second', 'two', 'two_or', 'not_or'])
+        try:
+            with symbolic_mode():
+                x = let(type_=O.Item, domain=dom)
+                y = let(type_=O.Item, domain=probe)
+                m1 = in_(y.size, concatenate(x.tags)) if rng.random() < 0.5 else contains(concatenate(x.tags), y.size)
+                oc = O.build(other, [y])
+                if shape == 'or_first':
+                    cond, ref = or_(m1, oc), lambda o: (o.size in all1) or O.holds(other, {0: o})
+                elif shape == 'or_second':
+                    cond, ref = or_(oc, m1), lambda o: O.holds(other, {0: o}) or (o.size in all1)
+                elif shape == 'and_first':
+                    cond, ref = and_(m1, oc), lambda o: (o.size in all1) and O.holds(other, {0: o})
+                elif shape == 'and_second':
+                    cond, ref = and_(oc, m1), lambda o: O.holds(other, {0: o}) and (o.size in all1)
+                elif shape == 'not_or':
+                    cond, ref = not_(or_(oc, m1)), lambda o: not (O.holds(other, {0: o}) or (o.size in all1))
+                else:
+                    m2 = in_(y.size, concatenate(x.props['more']))
+                    if shape == 'two':
+                        cond, ref = and_(m1, not_(m2)), lambda o: (o.size in all1) and (o.size not in all2)
+                    else:
+                        cond, ref = or_(m2, m1), lambda o: (o.size in all2) or (o.size in all1)
+                q = an(entity(y, cond))
+            outs = [list(q.evaluate()) for _ in range(2)]
+            want = [o for o in probe if ref(o)]
+        except Exception as e:  # noqa
+            return {'shape': shape, 'exception': repr(e), 'trace': traceback.format_exc(limit=4), 'signature_kind': shape + ':exception'}
+        if not all(O.same_list_by_identity(sorted(g, key=id), sorted(want, key=id)) for g in outs):
+            return {'shape': shape, 'other': repr(other), 'all': all1, 'all2': all2, 'got': repr(outs), 'want': repr(want),
+                    'signature_kind': shape}
+        return None
     dom = O.make_domain(rng, 3, falsy=p.get('falsy', False))
     if rng.random() < 0.3:
         dom[0].tags = []
